@@ -267,6 +267,9 @@ func (g *engGen) fill(rng *rand.Rand) {
 			}
 			inputs = append(inputs, s)
 		}
+	} else if rng.Intn(12) == 0 {
+		pat, inputs = sparseNumbered(rng, g.perPat)
+		source = "sparse"
 	} else {
 		cfg := fullConfig(rng, o)
 		var ast *gen.Node
@@ -303,6 +306,72 @@ func (g *engGen) fill(rng *rand.Rand) {
 		}
 		g.queue = append(g.queue, c)
 	}
+}
+
+// sparseNumbered builds patterns whose groups carry explicit, non-contiguous numbers ((?<2>a+)(?<5>b+)\2) and
+// are observed by a backreference or a conditional: the user number and the dense slot of a group differ, so
+// anything indexed by the wrong one of the two (slot tables of the writer, capture liveness of the bool-only
+// program, replacement slots) shows. The random AST generator numbers its groups densely and never gets here.
+func sparseNumbered(rng *rand.Rand, perPat int) (string, [][]rune) {
+	atoms := [][2]string{{"a+", "aa"}, {"b+", "bb"}, {"a", "a"}, {"b", "b"}, {"[ab]", "b"}, {"a*", "a"}, {"c?", "c"}, {"ab", "ab"}}
+	nums := rng.Perm(7)
+	k := 2 + rng.Intn(2)
+	var pat, sample strings.Builder
+	type grp struct {
+		num  int
+		text string
+	}
+	var gs []grp
+	for j := 0; j < k; j++ {
+		a := atoms[rng.Intn(len(atoms))]
+		if rng.Intn(4) == 0 {
+			pat.WriteString("(" + a[0] + ")")
+			sample.WriteString(a[1])
+			continue
+		}
+		n := nums[j] + 1
+		fmt.Fprintf(&pat, "(?<%d>%s)", n, a[0])
+		sample.WriteString(a[1])
+		gs = append(gs, grp{n, a[1]})
+	}
+	for j := 1 + rng.Intn(2); j > 0 && len(gs) > 0; j-- {
+		g := gs[rng.Intn(len(gs))]
+		switch rng.Intn(4) {
+		case 0:
+			fmt.Fprintf(&pat, "\\%d", g.num)
+			sample.WriteString(g.text)
+		case 1:
+			fmt.Fprintf(&pat, "\\k<%d>", g.num)
+			sample.WriteString(g.text)
+		case 2:
+			fmt.Fprintf(&pat, "(?(%d)a|b)", g.num)
+			sample.WriteString("a")
+		default:
+			fmt.Fprintf(&pat, "(?:x|\\%d)", g.num)
+			sample.WriteString(g.text)
+		}
+	}
+	var inputs [][]rune
+	hit := sample.String()
+	for j := 0; j < perPat; j++ {
+		var sb strings.Builder
+		switch j % 3 {
+		case 0:
+			sb.WriteString([]string{"", "xx ", "ab", "b"}[rng.Intn(4)] + hit + []string{"", " yy", "a", " " + hit}[rng.Intn(4)])
+		case 1:
+			r := []rune(hit)
+			if len(r) > 0 {
+				r[rng.Intn(len(r))] = []rune("abcx")[rng.Intn(4)]
+			}
+			sb.WriteString("x" + string(r) + " " + hit)
+		default:
+			for n := rng.Intn(10); n > 0; n-- {
+				sb.WriteByte("aabbc x"[rng.Intn(7)])
+			}
+		}
+		inputs = append(inputs, []rune(sb.String()))
+	}
+	return pat.String(), inputs
 }
 
 // biasedAst builds the shapes each candidate-search mode recognises: literal prefixes, alternations of
